@@ -180,6 +180,16 @@ Section Full.
     intros E. rewrite E in H. exact H.
   Qed.
 
+  (* whatever fuel the runner uses: a result other than "out of fuel" is the structural expansion *)
+  Theorem full_run_any_fuel fuel :
+    snd (full_run fs max_depth fuel [(p0, 0%N, full_root o0)]) <> FOutOfFuel _ _ ->
+    full_run fs max_depth fuel [(p0, 0%N, full_root o0)] = (items0, gfinal_of _ _ _ _ _ _ out0).
+  Proof.
+    intros Hf. unfold full_run, full_expand_root, full_expand in *. apply run_any_fuel; [|exact Hf].
+    pose proof full_root_ok as [_ H]. unfold full_expand_root, full_expand in H.
+    intros E. rewrite E in H. exact H.
+  Qed.
+
   Theorem full_run_total :
     exists f0, forall fuel, f0 <= fuel ->
       exists items, (full_run fs max_depth fuel [(p0, 0%N, full_root o0)] = (items, FDone _ _) \/
